@@ -28,7 +28,7 @@ BlankCfg == [hosts |-> <<>>, pol |-> [kind |-> "none", n |-> 0, allow |-> {}], o
 Proj(r) == Ev(r.ev, r.e, r.h, r.n, r.x, r.y)
 
 \* all Executor variables in the blank state between traces
-BlankNext == /\ cfg' = BlankCfg /\ ex' = [e \in E |-> Ex0] /\ ipos' = 0 /\ cnt' = 0 /\ started' = 0 /\ launched' = 0
+BlankNext == /\ cfg' = BlankCfg /\ ex' = [e \in E |-> Ex0] /\ ipos' = 0 /\ cnt' = 0 /\ started' = 0 /\ spawned' = 1 /\ launched' = 0
           /\ chan' = NoRes /\ ret' = NoRes /\ cancelled' = FALSE /\ returned' = FALSE
           /\ g' = MonInit /\ hist' = <<>> /\ last' = NoEv
 
@@ -36,7 +36,7 @@ TInit == /\ l = 1 /\ tid = 0
          /\ InitWith(BlankCfg)
 
 Begin == /\ l <= NLog /\ Log[l].ev = "begin"
-         /\ cfg' = CfgOf(Log[l]) /\ ex' = [e \in E |-> Ex0] /\ ipos' = 0 /\ cnt' = 0 /\ started' = 0 /\ launched' = 0
+         /\ cfg' = CfgOf(Log[l]) /\ ex' = [e \in E |-> Ex0] /\ ipos' = 0 /\ cnt' = 0 /\ started' = 0 /\ spawned' = 1 /\ launched' = 0
          /\ chan' = NoRes /\ ret' = NoRes /\ cancelled' = FALSE /\ returned' = FALSE
          /\ g' = MonInit /\ hist' = <<>> /\ last' = NoEv
          /\ l' = l + 1 /\ tid' = Log[l].id
@@ -51,7 +51,7 @@ Visible == /\ InTrace /\ Log[l].ev \notin {"endtrace", "quiesce"}
 \* harness knowledge, not an action of the executor: only the monitor takes note
 Quiesce == /\ InTrace /\ Log[l].ev = "quiesce"
            /\ g' = MonStep(g, Proj(Log[l]), cfg)
-           /\ UNCHANGED <<cfg, ex, ipos, cnt, started, launched, chan, ret, cancelled, returned, hist, last>>
+           /\ UNCHANGED <<cfg, ex, ipos, cnt, started, spawned, launched, chan, ret, cancelled, returned, hist, last>>
            /\ l' = l + 1 /\ tid' = tid
 
 Silent == /\ InTrace /\ SilentNext /\ UNCHANGED tvars
